@@ -133,7 +133,7 @@ CHECKS = {
 NOT_APPLICABLE = {
 }
 
-HOOK_COMMITS = ["cdd4f9a", "e9c8015", "e8659e1"]
+HOOK_COMMITS = ["cdd4f9a", "e9c8015", "e8659e1", "aaf9cbf"]
 
 
 def main():
